@@ -303,6 +303,13 @@ def extraFieldSpecs : OptClass → AdmmSolver → List FieldSpec
   | .apgm, _ => [⟨"L", "%9.3e", "L"⟩, ⟨"Residual", "%9.3e", "norm_residual()"⟩]
   | _, _ => residualFieldSpecs
 
+/-- `_objective_evaluatable()`: ADMM `(not self.f or self.f.has_eval) and all(g.has_eval for g in g_list)`;
+    every other class `self.f.has_eval and self.g.has_eval` (one `g`) -/
+def objectiveEvaluable (c : OptClass) (fGiven fHas : Bool) (gs : List Bool) : Bool :=
+  match c with
+  | .admm => (!fGiven || fHas) && gs.all id
+  | _ => fHas && gs.all id
+
 /-- all columns of a record, in order -/
 def fieldSpecs (c : OptClass) (sv : AdmmSolver) (objectiveEvaluable : Bool) : List FieldSpec :=
   defaultFieldSpecs objectiveEvaluable ++ extraFieldSpecs c sv
@@ -977,6 +984,48 @@ annotations and exception messages dropped; `ast.unparse` text).  `harness/drive
 `decide +kernel`: a statement added, removed, reordered or changed in the source breaks an obligation. -/
 
 def sourceSkeletons : List (String × List (Nat × String)) := [
+  -- ADMM._objective_evaluatable  →  objectiveEvaluable
+  ("ADMM._objective_evaluatable", [
+    (0, "return (not self.f or self.f.has_eval) and all([_.has_eval for _ in self.g_list])")]),
+  -- ADMM.minimizer  →  Env.minimizer (the variable `x`)
+  ("ADMM.minimizer", [
+    (0, "return self.x")]),
+  -- LinearizedADMM._objective_evaluatable  →  objectiveEvaluable
+  ("LinearizedADMM._objective_evaluatable", [
+    (0, "return self.f.has_eval and self.g.has_eval")]),
+  -- LinearizedADMM.minimizer  →  Env.minimizer (the variable `x`)
+  ("LinearizedADMM.minimizer", [
+    (0, "return self.x")]),
+  -- ProximalADMM._objective_evaluatable  →  objectiveEvaluable
+  ("ProximalADMM._objective_evaluatable", [
+    (0, "return self.f.has_eval and self.g.has_eval")]),
+  -- ProximalADMM.minimizer  →  Env.minimizer (the variable `x`)
+  ("ProximalADMM.minimizer", [
+    (0, "return self.x")]),
+  -- NonLinearPADMM._objective_evaluatable  →  objectiveEvaluable
+  ("NonLinearPADMM._objective_evaluatable", [
+    (0, "return self.f.has_eval and self.g.has_eval")]),
+  -- NonLinearPADMM.minimizer  →  Env.minimizer (the variable `x`)
+  ("NonLinearPADMM.minimizer", [
+    (0, "return self.x")]),
+  -- PDHG._objective_evaluatable  →  objectiveEvaluable
+  ("PDHG._objective_evaluatable", [
+    (0, "return self.f.has_eval and self.g.has_eval")]),
+  -- PDHG.minimizer  →  Env.minimizer (the variable `x`)
+  ("PDHG.minimizer", [
+    (0, "return self.x")]),
+  -- PGM._objective_evaluatable  →  objectiveEvaluable
+  ("PGM._objective_evaluatable", [
+    (0, "return self.f.has_eval and self.g.has_eval")]),
+  -- PGM.minimizer  →  Env.minimizer (the variable `x`)
+  ("PGM.minimizer", [
+    (0, "return self.x")]),
+  -- AcceleratedPGM._objective_evaluatable  →  objectiveEvaluable
+  ("AcceleratedPGM._objective_evaluatable", [
+    (0, "return self.f.has_eval and self.g.has_eval")]),
+  -- AcceleratedPGM.minimizer  →  Env.minimizer (the variable `x`)
+  ("AcceleratedPGM.minimizer", [
+    (0, "return self.x")]),
   -- Optimizer.solve  →  solve / body / loop (Drv.timerStart, Drv.timerStop); solveX for callbacks that assign attributes
   ("Optimizer.solve", [
     (0, "self.timer.start()"),
